@@ -523,6 +523,15 @@ func Run(cfg *common.Config) (*common.Report, error) {
 	for _, ds := range regressionRaws() {
 		d.rawCase(ds, "shared-blank-array", 0, true)
 	}
+	// integer lexical forms x integer datatypes: deterministic, every pair in every run
+	for i := 0; i < len(intLexForms)*len(intTypes); i++ {
+		d.docCase(intLexDoc(i), []int{0, 2, 1}[i%3])
+	}
+	for i := 0; i < 3*len(intTypes); i++ {
+		ds, reject := intLexRaw(i)
+		d.rawCase(ds, "int-lexical", []int{0, 2, 1}[i%3], false)
+		_ = reject
+	}
 	nValid := cfg.Pick(150, 4000)
 	for i := 0; i < nValid; i++ {
 		doc := g.Valid(1 + cfg.Rng.Intn(3))
